@@ -388,6 +388,16 @@ def engine_suite():
             O.fail('C04.engine.top_level_variables_see_earlier_ones', {'engine_rules': text}, want, got, 'parse_merchants(text).match(txn).matched')
 
 
+def walrus_generator_suite():
+    """a generator expression kept in a := name and advanced twice with next(): Python advances the same iterator"""
+    for expr, want in (('((g := (r.qty for r in orders)) != 0) and (next(g, 0) + next(g, 0) == 3)', True),
+                       ('((g := (r.item for r in orders)) != 0) and (next(g) == "Cable") and (next(g) == "Mouse")', True)):
+        O.case(('walrus_generator', expr))
+        got = tally_eval(expr)
+        if got != ('ok', want):
+            O.fail('C04.generator_bound_with_walrus_is_not_an_iterator', {'walrus_generator': expr}, want, list(got), 'evaluate_transaction')
+
+
 def main():
     replay_models()
     if O.witness:
@@ -407,6 +417,8 @@ def main():
             reference_examples_suite()
         elif 'engine_rules' in w:
             engine_suite()
+        elif 'walrus_generator' in w:
+            walrus_generator_suite()
         elif w['expr'] in MUST_FAIL:
             scope_suite()
         else:
@@ -418,6 +430,7 @@ def main():
     table_suite()
     reference_examples_suite()
     engine_suite()
+    walrus_generator_suite()
     diff_suite()
     bool_suite()
     scope_suite()
